@@ -332,24 +332,26 @@ PROPS = {
         "level": "other",
         "property_obligations": ["evaluate_comparisons", "apply_negation_definition_inverse", "apply_reverse_implication_definition",
                                  "apply_equivalence_definition_inverse", "remove_identities", "remove_annihilations", "remove_idempotences",
-                                 "remove_empty_quantifications", "remove_double_negation", "extend_quantifier_scope", "lemma_scope_cl", "Formula::apply", "Formula::apply_fixpoint",
+                                 "remove_empty_quantifications", "remove_orphaned_variables", "join_nested_quantifiers", "lemma_orphans", "lemma_join", "lemma_drop_unused", "lemma_nested_blocks",
+                                 "remove_double_negation", "extend_quantifier_scope", "lemma_scope_cl", "Formula::apply", "Formula::apply_fixpoint",
                                  "lemma_sapply_preserves_ht", "lemma_sapply_preserves_cl", "lemma_compose_preserves_ht", "lemma_compose_preserves_cl",
                                  "lemma_congruence_ht", "lemma_congruence_cl", "lemma_eval_comparisons", "lemma_link", "lemma_chain"],
         "carriers": [],
         "explanation": "Verus proves, directly on the real bodies, the SEMANTIC contract preserves_ht(result, input) — same truth value in every HT interpretation with H subset of T, in both "
-                       "worlds, under every assignment; same classical truth value; no new free variables — for 8 of the 10 rewrites of the INTUITIONISTIC portfolio "
-                       "(evaluate_comparisons incl. its loop, the three definition foldings, identities, annihilations, idempotences, empty quantifications), and the lifting of any "
+                       "worlds, under every assignment; same classical truth value; no new free variables — for ALL 10 rewrites of the INTUITIONISTIC portfolio "
+                       "(evaluate_comparisons incl. its loop, the three definition foldings, identities, annihilations, idempotences, empty quantifications, orphaned variables — sound because every sort is inhabited —, "
+                       "and nested quantifiers of the same kind joined into one sorted, de-duplicated block), and the lifting of any "
                        "meaning-preserving operation through the real Apply::apply (recursive strategy), through composition, and through the real apply_fixpoint (fixpoint strategy). "
                        "Of the CLASSIC portfolio, remove_double_negation and extend_quantifier_scope are proved to preserve CLASSICAL meaning and free variables "
-                       "(preserves_cl; they are not HT-valid and the contract says so). NOT under contract: remove_orphaned_variables and join_nested_quantifiers (iterator filter / Vec::sort+dedup: specs not derivable in this Verus), "
+                       "(preserves_cl; they are not HT-valid and the contract says so). NOT under contract: "
                        "substitute_defined_variables, restrict_quantifier_domain, simplify_transitive_equality (iterator chains, enumerate in nested loops, retain), Compose::compose glue and the portfolio tables.",
         "assumptions": [
             "Formula::conjoin/disjoin carry an ASSUMED contract (left-nested fold; body uses Iterator::reduce)",
-            "remove_orphaned_variables, join_nested_quantifiers: NOT verified",
+            "D23 (filter/collect desugared to a loop) in remove_orphaned_variables; slice::sort permutes (T12), Vec::dedup loses/invents no element (T14), Vec::append per vstd",
             "classic.rs: substitute_defined_variables, restrict_quantifier_domain, simplify_transitive_equality: NOT verified",
             "Compose::compose (impl Fn over a cloned iterator) and the INTUITIONISTIC/HT/CLASSIC tables: not under contract; lemma_compose_preserves_* is the spec-level statement",
         ],
-        "not_covered": ["remove_orphaned_variables", "join_nested_quantifiers", "substitute_defined_variables", "restrict_quantifier_domain", "simplify_transitive_equality", "Compose::compose"],
+        "not_covered": ["substitute_defined_variables", "restrict_quantifier_domain", "simplify_transitive_equality", "Compose::compose"],
     },
 }
 
